@@ -281,7 +281,7 @@ func forced(r *vlib.Run) {
 		n /= 10
 	}
 	r.ForTrials("forced", n, func(trial int, rng *rand.Rand) {
-		if stuckSeen.Load() >= 2 {
+		if stuckSeenForced.Load() >= 2 {
 			r.Inconclusive("trials skipped after repeated stuck-consumer violations in this process")
 			return
 		}
@@ -408,7 +408,7 @@ func forcedTrial(r *vlib.Run, trial int, rng *rand.Rand) {
 				inconcl = "watchdog: no progress for the grace period but the consumer is not parked in Next (" + sig + ")"
 				return
 			}
-			stuckSeen.Add(1)
+			stuckSeenForced.Add(1)
 			stuck = &finding{sig, fmt.Sprintf("%s: Next has not returned for >= %v although every other call of the script has returned and every gate is released; accepted insertions not yet delivered: %d, Close returned: %v, context cancelled: %v, Len()=%d; goroutine: %s", why, grace, owed, closedReturned, evCancel, t.q.Len(), dump)}
 			return
 		}
@@ -614,7 +614,7 @@ func forcedTrial(r *vlib.Run, trial int, rng *rand.Rand) {
 			abort = true
 			dump := parkedInNext()
 			if dump != "" && t.inNext.Load() {
-				stuckSeen.Add(1)
+				stuckSeenForced.Add(1)
 				stuck = &finding{"stuck-after-close", fmt.Sprintf("final drain: Next on a closed queue has not returned for >= %v; Len()=%d; goroutine: %s", grace, t.q.Len(), dump)}
 			} else {
 				inconcl = "watchdog: final drain made no progress but the consumer is not parked in Next"
